@@ -173,6 +173,95 @@ func main() {
 	c.finish()
 }
 
+// runReplay re-executes the case recorded in a replay artefact (no search):
+// an API history under its configuration with the full sweeps, or a concurrent
+// program under its recorded schedule. A reproduced problem is reported again.
 func runReplay(c *Ctx, file string) {
-	fmt.Fprintln(os.Stderr, "replay not implemented yet:", file)
+	data, err := os.ReadFile(file)
+	if err != nil {
+		fmt.Fprintln(os.Stderr, "replay:", err)
+		os.Exit(2)
+	}
+	var doc struct {
+		Property  string          `json:"property"`
+		Signature string          `json:"signature"`
+		Cfg       Cfg             `json:"cfg"`
+		Path      []Op            `json:"path"`
+		More      json.RawMessage `json:"more"`
+	}
+	if err := json.Unmarshal(data, &doc); err != nil {
+		fmt.Fprintln(os.Stderr, "replay:", err)
+		os.Exit(2)
+	}
+	var more struct {
+		Program    *Prog `json:"program"`
+		Schedule   []int `json:"schedule"`
+		CrashIndex *int  `json:"crash_index"`
+		Cut        int   `json:"cut"`
+	}
+	json.Unmarshal(doc.More, &more)
+	c.Count("transitions", 1)
+	c.Distinct("states", file)
+	switch {
+	case more.Program != nil:
+		r := runProg(*more.Program, more.Schedule, 99, func(w *World, r *ExecResult) {
+			objs, err := w.DB.All(&Rec{})
+			if err != nil {
+				r.Final = "err:" + err.Error()
+			} else {
+				r.Final = "ok:" + objSet(objs)
+			}
+		})
+		x := r.X
+		fmt.Fprintf(os.Stderr, "replayed program %s under schedule %v: %d decisions, deadlock=%v horizon=%v panics=%d\n", jsonOf(more.Program), more.Schedule, x.NPoints, x.Deadlock, x.Horizon, len(x.Panics))
+		for _, h := range r.Hist {
+			fmt.Fprintf(os.Stderr, "  thread %d %s -> %s [inv %d resp %d]\n", h.Thread, jsonOf(h.Call), clip(h.Res), h.Inv, h.Resp)
+		}
+		switch {
+		case x.BadPrefix:
+			fmt.Fprintln(os.Stderr, "replay: the schedule no longer fits the program (divergence)")
+			os.Exit(2)
+		case x.Deadlock || x.Horizon:
+			c.Violation(Violation{Sig: doc.Signature, What: fmt.Sprintf("reproduced: calls wait for each other forever: %v", x.Blocked), Cfg: more.Program.Cfg})
+		case len(x.Panics) > 0:
+			c.Violation(Violation{Sig: doc.Signature, What: "reproduced: panic: " + x.Panics[0].Value, Cfg: more.Program.Cfg})
+		case r.Started && r.W != nil && len(more.Program.Threads) > 1:
+			if order, _ := linearizable(r.W.M, r.W.Slots, r.Hist, r.Final); order == nil {
+				c.Violation(Violation{Sig: doc.Signature, What: "reproduced: the history is not linearizable", Cfg: more.Program.Cfg})
+			}
+		}
+	case more.CrashIndex != nil:
+		rec := Record(doc.Cfg, doc.Property, doc.Path)
+		call := len(doc.Path) + 1
+		if *more.CrashIndex < len(rec.Log) {
+			call = rec.Log[*more.CrashIndex].Call
+		}
+		for _, v := range checkCrash(rec, crashImage{K: *more.CrashIndex, Cut: more.Cut, Call: call}, doc.Property) {
+			c.Violation(v)
+		}
+	default:
+		res := RunPath(doc.Cfg, doc.Property, nil, func(w *World) {
+			for _, op := range doc.Path {
+				if !w.Applicable(op) {
+					fmt.Fprintln(os.Stderr, "replay: history not applicable at", jsonOf(op))
+					return
+				}
+				w.Apply(op)
+				fmt.Fprintf(os.Stderr, "  %s -> %d problem(s) so far\n", jsonOf(op), len(w.Viol))
+			}
+			if len(w.Viol) == 0 {
+				w.SweepBasic()
+				w.SearchSweep(true)
+				if w.Cfg.Async == 0 {
+					if err := w.Control(); err != nil {
+						w.fail("control", "Control fails: "+err.Error())
+					}
+				}
+			}
+		})
+		for _, v := range res.W.Viol {
+			c.Violation(v)
+		}
+	}
+	c.Sample(map[string]interface{}{"replayed": file})
 }
